@@ -222,8 +222,8 @@ impl ops::Add for Value {
     type Output = Self;
 
     fn add(self, rhs: Self) -> Self::Output {
-        let a = f64::try_from(&self).unwrap();
-        let b = f64::try_from(&rhs).unwrap();
+        let a = f64::try_from(&self).unwrap_or(f64::NAN);
+        let b = f64::try_from(&rhs).unwrap_or(f64::NAN);
         Value::Number(a + b)
     }
 }
@@ -232,8 +232,8 @@ impl ops::Sub for Value {
     type Output = Self;
 
     fn sub(self, rhs: Self) -> Self::Output {
-        let a = f64::try_from(&self).unwrap();
-        let b = f64::try_from(&rhs).unwrap();
+        let a = f64::try_from(&self).unwrap_or(f64::NAN);
+        let b = f64::try_from(&rhs).unwrap_or(f64::NAN);
         Value::Number(a - b)
     }
 }
@@ -242,8 +242,8 @@ impl ops::Mul for Value {
     type Output = Self;
 
     fn mul(self, rhs: Self) -> Self::Output {
-        let a = f64::try_from(&self).unwrap();
-        let b = f64::try_from(&rhs).unwrap();
+        let a = f64::try_from(&self).unwrap_or(f64::NAN);
+        let b = f64::try_from(&rhs).unwrap_or(f64::NAN);
         Value::Number(a * b)
     }
 }
@@ -252,8 +252,8 @@ impl ops::Div for Value {
     type Output = Self;
 
     fn div(self, rhs: Self) -> Self::Output {
-        let a = f64::try_from(&self).unwrap();
-        let b = f64::try_from(&rhs).unwrap();
+        let a = f64::try_from(&self).unwrap_or(f64::NAN);
+        let b = f64::try_from(&rhs).unwrap_or(f64::NAN);
         Value::Number(a / b)
     }
 }
@@ -262,8 +262,8 @@ impl ops::Rem for Value {
     type Output = Self;
 
     fn rem(self, rhs: Self) -> Self::Output {
-        let a = f64::try_from(&self).unwrap();
-        let b = f64::try_from(&rhs).unwrap();
+        let a = f64::try_from(&self).unwrap_or(f64::NAN);
+        let b = f64::try_from(&rhs).unwrap_or(f64::NAN);
         Value::Number(a % b)
     }
 }
@@ -272,7 +272,7 @@ impl ops::Neg for Value {
     type Output = Self;
 
     fn neg(self) -> Self::Output {
-        let a = f64::try_from(&self).unwrap();
+        let a = f64::try_from(&self).unwrap_or(f64::NAN);
         Value::Number(0f64 - a)
     }
 }
